@@ -31,7 +31,7 @@ def run(ctx):
     runs.append(("stmt", ps))
     _, ps, _ = vm_util.generate(ctx, "MC_PolicyLang_fx.cfg")
     runs.append(("fx", ps))
-    _, ps, _ = vm_util.generate(ctx, "MC_PolicyLang_sim.cfg", simulate=4000 if ctx.thorough else 150, depth=400)
+    _, ps, _ = vm_util.generate(ctx, "MC_PolicyLang_sim.cfg", simulate=2000 if ctx.thorough else 150, depth=400)
     runs.append(("sim", ps))
     allres = []
     docs = 0
@@ -44,7 +44,7 @@ def run(ctx):
         for r in res:
             forms.update(r.get("obs", {}).get("forms", []) if r.get("ok") else [])
     t = vm_util.tally(allres)
-    if not {"cbor", "rkyv"} <= forms:
+    if ctx.nviol == 0 and not {"cbor", "rkyv"} <= forms:
         raise verif.ToolError("vacuous: serialized forms exercised: %s" % sorted(forms))
     ctx.cov.update({
         "evaluations": t["envs"] * (1 + len(forms)),
